@@ -11,7 +11,7 @@
    Shapes: the circuit size is a Python int (Z) in the generated code and a nat in the model: the links read it through
    Z.to_nat (a size < 1 raises ValueError on both sides). *)
 From QV Require Import Translate.PyPrelude Translate.PyPrelude_proofs Translate.C15Aux.
-From QV Require Import Jssp.DomainWall Jssp.Encoder Jssp.Encoder_proofs.
+From QV Require Import Jssp.DomainWall Jssp.Encoder Jssp.Encoder_proofs Jssp.Decoded_proofs Jssp.Grouping_proofs.
 From QVGen Require Import C01Gen.
 Open Scope Z_scope.
 
@@ -971,3 +971,83 @@ Proof.
   destruct (pair_thread prec_plan _ [] st) as [[a s]|err]; reflexivity.
 Qed.
 Print Assumptions link_Enc_ham_precedence_terms.
+
+(* ------------------------------------------------------------------ _prepare_hamiltonian: the overlap-term loop
+   The second loop (fragment behind `overlap_terms: list = []`): for every machine in the order of the machine dict, skipped
+   with `continue` when fewer than two operations use it, the overlap term of every pair of itertools.combinations(operations, 2)
+   (= Encoder.combs2, spec preamble), threaded through the state like the precedence terms.  In any state reached from the
+   prepared encoding whose machine dict is still the prepared one (pair terms only touch the counts) the loop is
+   pair_thread overlap_plan over exactly the pair list Encoder.overlap_plans maps over. *)
+Lemma overlap_pairs_thread e : NoDup (map v_op (e_vars e)) -> forall pairs acc st,
+  (forall a b, In (a, b) pairs -> In a (e_vars e) /\ In b (e_vars e)) -> reached_from_prepared e st ->
+  py_foldM (fun '(overlap_terms, st) '(operation_1, operation_2) =>
+      do r2_ <- gen_Enc_overlap_term operation_1 operation_2 st;
+      let st := snd r2_ in
+      let overlap_terms := (overlap_terms ++ [fst r2_])%list in
+      Ok (overlap_terms, st))
+    (map (fun ab => (v_op (fst ab), v_op (snd ab))) pairs) (acc, st)
+  = pair_thread overlap_plan pairs acc st.
+Proof.
+  intros Hnd. induction pairs as [|[v1 v2] r IH]; intros acc st Hin Hr; [reflexivity|].
+  cbn [map py_foldM pair_thread fst snd]. cbv zeta.
+  destruct (Hin v1 v2 (or_introl eq_refl)) as [H1 H2].
+  rewrite (link_Enc_overlap_term_after_prepare e st v1 v2 Hnd Hr H1 H2).
+  destruct (overlap_plan v1 v2) as [p|err] eqn:Ep; [|reflexivity].
+  destruct (pair_result (v_op v1) (v_op v2) st (Ok p)) as [[t st']|err] eqn:Et; cbn [bind fst snd]; [|reflexivity].
+  apply IH; [intros a b Hab; apply Hin; now right|].
+  eapply reached_pair_result; [exact Hr|exact Et].
+Qed.
+
+Lemma overlap_machines_loop e : NoDup (map v_op (e_vars e)) -> forall mo acc st,
+  (forall ml v, In ml mo -> In v (snd ml) -> In v (e_vars e)) -> reached_from_prepared e st ->
+  py_foldM (fun '(overlap_terms, st) '(_, operations) =>
+      if (py_len operations <? 2)%Z
+      then Ok (overlap_terms, st)
+      else
+        do v1_ <- py_combinations2 operations 2;
+        do l3_ <-
+          py_foldM (fun '(overlap_terms, st) '(operation_1, operation_2) =>
+            do r2_ <- gen_Enc_overlap_term operation_1 operation_2 st;
+            let st := snd r2_ in
+            let overlap_terms := (overlap_terms ++ [fst r2_])%list in
+            Ok (overlap_terms, st)) v1_ (overlap_terms, st);
+        let '(overlap_terms, st) := l3_ in
+        Ok (overlap_terms, st)) (mo_ops mo) (acc, st)
+  = pair_thread overlap_plan (concat (map (fun ml => if (List.length (snd ml) <? 2)%nat then [] else combs2 (snd ml)) mo)) acc st.
+Proof.
+  intros Hnd. induction mo as [|[m l] r IH]; intros acc st Hin Hr; [reflexivity|].
+  cbn [mo_ops map py_foldM concat fst snd]. fold (mo_ops r). rewrite pair_thread_app.
+  unfold py_len. rewrite map_length.
+  assert (Hl : forall v, In v l -> In v (e_vars e)) by (intros v Hv; apply (Hin (m, l) v); [now left|exact Hv]).
+  assert (Hr' : forall ml v, In ml r -> In v (snd ml) -> In v (e_vars e)) by (intros ml v Hml Hv; apply (Hin ml v); [now right|exact Hv]).
+  destruct (Nat.ltb_spec (List.length l) 2) as [Hs|Hs].
+  - replace (Z.of_nat (List.length l) <? 2) with true by (symmetry; apply Z.ltb_lt; lia).
+    cbn [pair_thread bind fst snd]. apply IH; assumption.
+  - replace (Z.of_nat (List.length l) <? 2) with false by (symmetry; apply Z.ltb_ge; lia).
+    unfold py_combinations2. cbn [Z.eqb Pos.eqb bind]. rewrite combs2_map.
+    match goal with |- context [py_foldM ?F (map _ (combs2 l)) (acc, st)] =>
+      replace (py_foldM F (map (fun ab => (v_op (fst ab), v_op (snd ab))) (combs2 l)) (acc, st))
+        with (pair_thread overlap_plan (combs2 l) acc st)
+        by (symmetry; apply (overlap_pairs_thread e Hnd (combs2 l) acc st); [|exact Hr];
+            intros a b Hab; destruct (combs2_In l a b Hab); split; now apply Hl)
+    end.
+    destruct (pair_thread overlap_plan (combs2 l) acc st) as [[acc1 st1]|err] eqn:Et; cbn [bind fst snd]; [|reflexivity].
+    apply IH; [exact Hr'|]. eapply pair_thread_reached; [exact Hr|exact Et].
+Qed.
+
+Lemma link_Enc_ham_overlap_terms : forall I L e st acc,
+  NoDup (map v_op (e_vars e)) -> reached_from_prepared e st -> st_mo st = st_mo (state_of_enc e) ->
+  gen_Enc_ham_overlap_terms I L acc st
+  = pair_thread overlap_plan
+      (concat (map (fun ml => if (List.length (snd ml) <? 2)%nat then [] else combs2 (snd ml)) (machine_ops (e_vars e)))) acc st.
+Proof.
+  intros I L e st acc Hnd Hr Hmo. unfold gen_Enc_ham_overlap_terms. rewrite Hmo, st_mo_state_of_enc.
+  match goal with |- bind ?X _ = _ =>
+    replace X with (pair_thread overlap_plan
+      (concat (map (fun ml => if (List.length (snd ml) <? 2)%nat then [] else combs2 (snd ml)) (machine_ops (e_vars e)))) acc st)
+      by (symmetry; apply (overlap_machines_loop e Hnd (machine_ops (e_vars e)) acc st); [|exact Hr];
+          intros [m l] v Hml Hv; exact (proj1 (machine_ops_members (e_vars e) m l Hml v Hv)))
+  end.
+  destruct (pair_thread overlap_plan _ acc st) as [[a s]|err]; reflexivity.
+Qed.
+Print Assumptions link_Enc_ham_overlap_terms.
